@@ -672,8 +672,30 @@ func ProviderConfig(c IdPConfig) (*provider.Config, func(bool) (provider.IssuerF
 	if c.TimeFormat != "" {
 		opts = append(opts, provider.WithCustomTimeFormat(c.TimeFormat))
 	}
+	var interceptors []provider.HttpInterceptor
+	if c.InterceptorNeutral {
+		interceptors = append(interceptors, func(next http.Handler) http.Handler {
+			return http.HandlerFunc(func(w http.ResponseWriter, r *http.Request) {
+				w.Header().Set("X-Interceptor", "seen")
+				next.ServeHTTP(w, r.WithContext(context.WithValue(r.Context(), interceptorKey{}, "tenant-of-"+r.Host)))
+			})
+		})
+	}
+	if c.InterceptorIssuer != "" {
+		issuer := c.InterceptorIssuer
+		interceptors = append(interceptors, func(next http.Handler) http.Handler {
+			return http.HandlerFunc(func(w http.ResponseWriter, r *http.Request) {
+				next.ServeHTTP(w, r.WithContext(provider.ContextWithIssuer(r.Context(), issuer)))
+			})
+		})
+	}
+	if len(interceptors) > 0 {
+		opts = append(opts, provider.WithHttpInterceptors(interceptors...))
+	}
 	return conf, issuer, opts
 }
+
+type interceptorKey struct{}
 
 // Build constructs the provider and the storage from a spec.
 func Build(spec Spec) (*World, error) {
